@@ -419,6 +419,24 @@ def run_rename(case, res):
                      refusals=('Inputerror', 'NotImplementedError',
                                'ValueError'))
     res.count('rename_cases')
+    if mode == 'lowest' and not case.get('held_terms'):
+        # the same renaming through the substitutions returned by
+        # only_build_sub=True (the route reduce_expr takes): applied with subs
+        # they must give the same expression
+        def sub_route():
+            from sympy import Add
+            out = 0
+            for t_ in E.copy().expand().terms:
+                sub = t_.substitute_contracted(only_build_sub=True)
+                out += t_.sympy.subs(sub)
+            return out
+        via_sub = lib_call(sub_route, refusals=('Inputerror', 'ValueError',
+                                                'NotImplementedError'))
+        res.count('sub_list_routes')
+        if (via_sub - R.sympy).expand() != 0:
+            res.violation(f'substitute_contracted(only_build_sub=True) + subs '
+                          f'gives {via_sub}, the direct call gives {R} for {E}')
+            return
     n_o, n_v = case.get('dims') or ((4, 4) if case['spin'] else (2, 3))
     model = tm.Model(n_o, n_v, seed=case['mseed'], spin=case['spin'])
     ev = tm.Evaluator(model)
